@@ -154,10 +154,15 @@ class C07(Prop):
         dead = ck.get("dead_timeout", 0) if stack == "hash" else 0
         if dead and rng.random() < 0.5:
             # the application never pauses: a read every quarter of dead_timeout, for two and a half periods
+            # (every key in turn, so that every server sees the traffic: a server nobody talks to keeps its old
+            # failure record, and the first call that meets it again both evicts it and is still run on it - the
+            # "+2" of C13 - which would make the read-your-write probe at the end a test of that, not of C07)
             gap = max(dead / 4.0, 0.5)
-            for _ in range(int((2.5 * dead + 5) / gap) + 1):
+            n = int((2.5 * dead + 5) / gap) + 1
+            n += (-n) % len(keys)
+            for j in range(n):
                 steps.append({"t": "advance", "dt": gap})
-                steps.append({"t": "call", "m": "get", "a": [E(rng.choice(keys))], "k": {}, "tag": "warm"})
+                steps.append({"t": "call", "m": "get", "a": [E(keys[(j + 1) % len(keys)])], "k": {}, "tag": "warm"})
             steps.append({"t": "advance", "dt": gap})
         else:
             steps.append({"t": "advance", "dt": 2 * dead + 5})
